@@ -52,15 +52,34 @@ def sites(tree):
             for k, kw in enumerate(n.keywords):
                 if kw.arg is not None and not (isinstance(kw.value, ast.Constant) and kw.value.value is None):
                     yield ('dropkw', idx, k)
-        if isinstance(n, ast.FunctionDef) and n.body and isinstance(n.body[-1], ast.Return) and isinstance(n.body[-1].value, ast.Name):
-            x = n.body[-1].value.id
-            lens = sorted({c.args[0].id for c in ast.walk(n) if isinstance(c, ast.Call) and isinstance(c.func, ast.Name) and c.func.id == 'len'
-                           and len(c.args) == 1 and isinstance(c.args[0], ast.Name)})
-            first = next((j for j, st in enumerate(n.body) if any(isinstance(t, ast.Name) and t.id == x and isinstance(t.ctx, ast.Store) for t in ast.walk(st))), None)
-            if first is not None:
-                for pos in sorted({first + 1, len(n.body) - 1}):
-                    for name in lens:
-                        yield ('guard', idx, f'{pos}:{name}')
+        if isinstance(n, ast.FunctionDef) and len(n.body) >= 2:
+            # guard clause: `if len(P) == 1: return <R>` - P a parameter whose length is taken or that is iterated, R the name the
+            # function returns at its end (bare return for procedures / generators)
+            own = [x for x in ast.walk(n)]
+            params = {a.arg for a in n.args.posonlyargs + n.args.args + n.args.kwonlyargs} - {'self', 'cls'}
+            cand = set()
+            for c in own:
+                if isinstance(c, ast.Call) and isinstance(c.func, ast.Name) and c.func.id in ('len', 'enumerate', 'zip', 'zip_strict') :
+                    cand |= {a.id for a in c.args if isinstance(a, ast.Name)}
+                if isinstance(c, (ast.For, ast.comprehension)) and isinstance(c.iter, ast.Name):
+                    cand.add(c.iter.id)
+            last = n.body[-1]
+            valued = [r for r in own if isinstance(r, ast.Return) and r.value is not None]
+            if isinstance(last, ast.Return) and isinstance(last.value, ast.Name):
+                x = last.value.id
+                first = next((j for j, st in enumerate(n.body) if any(isinstance(t, ast.Name) and t.id == x and isinstance(t.ctx, ast.Store) for t in ast.walk(st))), None)
+                poss = sorted({first + 1, len(n.body) - 1}) if first is not None else []
+                names = sorted(cand)
+            elif not valued:
+                x = ''
+                doc = 1 if isinstance(n.body[0], ast.Expr) and isinstance(n.body[0].value, ast.Constant) else 0
+                poss = sorted({doc, len(n.body) - 1}) if len(n.body) - doc >= 2 else []
+                names = sorted(cand & params)
+            else:
+                poss, names, x = [], [], ''
+            for pos in poss:
+                for name in names:
+                    yield ('guard', idx, f'{pos}:{name}:{x}')
 
 
 def mutate(tree, op, idx, arg):
@@ -86,8 +105,7 @@ def mutate(tree, op, idx, arg):
     elif op == 'dropkw':
         del n.keywords[arg]
     elif op == 'guard':
-        pos, name = arg.split(':')
-        x = n.body[-1].value.id
+        pos, name, x = arg.split(':')
         g = ast.parse(f'if len({name}) == 1:\n    return {x}').body[0]
         before = f'<{n.name} body[{pos}]>'
         n.body.insert(int(pos), g)
